@@ -124,6 +124,7 @@ def run(ctx: Ctx):
     ctx.extra["exceptions_used"] = sorted(map(list, used))
     ctx.sample({"forwards_analysed": n_forward, "hits": n_hits, "td_i_row_uniform": uni_i})
     normalization(ctx)
+    feature_axis(ctx)
     # positive control
     t = vg.mk("param", "x")
     if len(ba.hits(vg.mk("/", t, vg.mk("meth", t, "std")))) != 1 or ba.hits(vg.mk("meth", t, "mean", vg.const(-1))):
@@ -162,6 +163,32 @@ def normalization(ctx: Ctx):
     ctx.ob("C14.c", "Normalization.forward:layer-axes", ok_layer, fi.loc, "layer normalisation reduces over the non-batch axes (1, 2) only", construct="Normalization.forward:layer-axes")
     ctx.ob("C14.c", "Normalization.__init__:delegation", ok_deleg, init.loc, "batch / instance normalisation are torch.nn layers (eval-mode batch norm uses running statistics)", construct="Normalization.__init__:delegation")
     ctx.assume("torch.nn.BatchNorm1d in eval mode normalises with running statistics (no dependence on the current batch)")
+
+
+def feature_axis(ctx: Ctx):
+    """C14.d: env context / dynamic embeddings may receive a flat [B, ...] or a regrouped
+    [B, starts, ...] state; features built from TensorDict cells are therefore stacked /
+    concatenated along the LAST axis (negative dim), never along a positive axis whose meaning
+    changes with the rank."""
+    for rel in ("rl4co/models/nn/env_embeddings/context.py", "rl4co/models/nn/env_embeddings/dynamic.py"):
+        mi = ctx.repo.module_by_path(rel)
+        for node in ast.walk(mi.tree):
+            if not (isinstance(node, ast.Call) and ast.unparse(node.func) in ("torch.stack", "torch.cat") and node.args):
+                continue
+            seq = node.args[0]
+            if not isinstance(seq, (ast.List, ast.Tuple)) or not any("td[" in ast.unparse(e) for e in seq.elts):
+                continue
+            dim = node.args[1] if len(node.args) > 1 else next((k.value for k in node.keywords if k.arg == "dim"), None)
+            fn, _ = ctx.repo.locate(rel, node.lineno, node.col_offset, getattr(node, "end_lineno", 0), getattr(node, "end_col_offset", 0))
+            val = None
+            if isinstance(dim, ast.UnaryOp) and isinstance(dim.op, ast.USub) and isinstance(dim.operand, ast.Constant):
+                val = -dim.operand.value
+            elif isinstance(dim, ast.Constant):
+                val = dim.value
+            ok = val is not None and val < 0
+            ctx.ob("C14.d", f"{fn}:{ast.unparse(node.func)}@{node.lineno - 0}", ok, f"{rel}:{node.lineno}",
+                   f"features of td cells combined along dim {val}" + ("" if ok else ": a non-negative dim addresses a different axis when the state is regrouped as [batch, starts, ...]"),
+                   construct=f"{fn}:feature-axis:{ast.unparse(node.func)}")
 
 
 def run_thorough(ctx: Ctx):
